@@ -1,10 +1,14 @@
 // C02 — transactions are atomic if/then/else: one branch, in order, all or nothing.
 //
 // (a,b) generated transactions embedded at random positions of apply batches of the real FSM:
-//       succeeded flag, n-th response and post-state equal the reference model's;
+//
+//	succeeded flag, n-th response and post-state equal the reference model's;
+//
 // (c)   read-only equivalence: Lookup(TxnRequest) == the same txn proposed through Update == model;
 // (d)   atomic visibility: a concurrent reader (one range read = one view) only ever sees the
-//       model state after a whole number of apply calls, never part of a transaction;
+//
+//	model state after a whole number of apply calls, never part of a transaction;
+//
 // (e)   the same through a real single-node engine (proposal path and SyncRead path).
 package main
 
@@ -61,6 +65,9 @@ func main() {
 	for i, n := 0, r.Pick(8, 60); i < n; i++ {
 		run(r, caseID{"visibility", r.Seed*2_000_003 + int64(i)})
 	}
+	for i, n := 0, r.Pick(2, 12); i < n; i++ {
+		run(r, caseID{"visibility-big", r.Seed*4_000_003 + int64(i)})
+	}
 	for i, n := 0, r.Pick(1, 8); i < n; i++ {
 		run(r, caseID{"engine", r.Seed*3_000_003 + int64(i)})
 	}
@@ -69,6 +76,7 @@ func main() {
 	r.FloorCount("readonly_equivalence_checks", int64(r.Pick(100, 4000)))
 	r.FloorCount("reader_views", int64(r.Pick(2000, 20000)))
 	r.FloorCount("reader_views_overlapping_apply", int64(r.Pick(200, 2000)))
+	r.FloorCount("big_txn_reader_views_overlapping_apply", int64(r.Pick(50, 300)))
 	r.FloorCount("engine_txns", int64(r.Pick(100, 1000)))
 	r.Finish()
 }
@@ -79,6 +87,8 @@ func run(r *ev.Run, id caseID) {
 		runFSM(r, id)
 	case "visibility":
 		runVisibility(r, id)
+	case "visibility-big":
+		runVisibilityBig(r, id)
 	case "engine":
 		runEngine(r, id)
 	}
@@ -407,6 +417,200 @@ func runVisibility(r *ev.Run, id caseID) {
 	}
 	r.Eval(1)
 	r.Sample(map[string]any{"kind": "visibility", "apply_calls": 150, "commands": head(cmds, 3)})
+}
+
+// runVisibilityBig: atomic visibility of transactions whose apply call carries more than the
+// state machine's 16 MiB in-memory batch bound, either the transaction itself (marker, nine ~2 MiB
+// puts, marker) or the plain writes in front of it in the same apply call (the bound is crossed
+// inside the transaction). Readers take small views only: the two markers through one read-only
+// transaction (always equal) and the count of the whole table (always a whole number of
+// transactions' worth).
+func runVisibilityBig(r *ev.Run, id caseID) {
+	g := gen.New(id.Seed)
+	t, err := fsmx.Fresh("t", fsm.RecoveryTypeSnapshot)
+	if err != nil {
+		r.Violation("fsm-open", err.Error(), id)
+		return
+	}
+	defer t.Close()
+	var (
+		stop      atomic.Bool
+		wg        sync.WaitGroup
+		bad       atomic.Value
+		applying  atomic.Bool
+		countsMu  sync.Mutex
+		stable    = []int64{0}            // stable[j] = table size after j apply calls
+		extra     = []map[int64]bool{nil} // extra[j] = sizes legal only while call j runs
+		started   atomic.Int64
+		completed atomic.Int64
+		overlapOK atomic.Int64
+	)
+	one := func(k string) *pb.RequestOp {
+		return &pb.RequestOp{Request: &pb.RequestOp_RequestRange{RequestRange: &pb.RequestOp_Range{Key: []byte(k)}}}
+	}
+	for rd := 0; rd < 2; rd++ {
+		wg.Add(1)
+		go func(rd int) {
+			defer wg.Done()
+			for !stop.Load() {
+				during := applying.Load()
+				lo := completed.Load()
+				if rd == 0 {
+					resp, err := t.Txn(&pb.TxnRequest{Success: []*pb.RequestOp{one("a"), one("z")}})
+					if err != nil {
+						bad.Store("reader txn error: " + err.Error())
+						return
+					}
+					var a, z string
+					if kv := resp.Responses[0].GetResponseRange().GetKvs(); len(kv) > 0 {
+						a = string(kv[0].Value)
+					}
+					if kv := resp.Responses[1].GetResponseRange().GetKvs(); len(kv) > 0 {
+						z = string(kv[0].Value)
+					}
+					if a != z {
+						if len(a) > 24 {
+							a = a[:24] + "…"
+						}
+						if len(z) > 24 {
+							z = z[:24] + "…"
+						}
+						bad.Store(fmt.Sprintf("one read-only transaction saw marker a=%q and marker z=%q, which one transaction always writes together", a, z))
+						return
+					}
+				} else {
+					resp, err := t.Range(&pb.RequestOp_Range{Key: []byte{0}, RangeEnd: []byte{0}, CountOnly: true})
+					if err != nil {
+						bad.Store("reader error: " + err.Error())
+						return
+					}
+					hi := started.Load()
+					countsMu.Lock()
+					ok := false
+					for j := lo; j <= hi && int(j) < len(stable); j++ {
+						if stable[j] == resp.Count || (j > lo && extra[j][resp.Count]) || (j > lo && stable[j-1] == resp.Count) {
+							ok = true
+						}
+					}
+					countsMu.Unlock()
+					if !ok {
+						bad.Store(fmt.Sprintf("a count-only read of the whole table saw %d pairs, which is not the size after any whole number of transactions", resp.Count))
+						return
+					}
+				}
+				r.Count("big_txn_reader_views", 1)
+				if during && applying.Load() {
+					overlapOK.Add(1)
+				}
+			}
+		}(rd)
+	}
+	put := func(k string, v []byte) *pb.RequestOp {
+		return &pb.RequestOp{Request: &pb.RequestOp_RequestPut{RequestPut: &pb.RequestOp_Put{Key: []byte(k), Value: v}}}
+	}
+	var idx uint64
+	var cmds []string
+	apply := func(entries []sm.Entry, after int64, also map[int64]bool) bool {
+		countsMu.Lock()
+		stable = append(stable, after)
+		extra = append(extra, also)
+		countsMu.Unlock()
+		started.Add(1)
+		applying.Store(true)
+		_, err := t.Update(entries)
+		applying.Store(false)
+		if err != nil {
+			bad.Store("update error: " + err.Error())
+			return false
+		}
+		completed.Add(1)
+		time.Sleep(2 * time.Millisecond)
+		return true
+	}
+	present := map[string]bool{}
+	for c, nc := 0, 6; c < nc && bad.Load() == nil; c++ {
+		tag := []byte(fmt.Sprintf("cycle%d", c))
+		switch c % 3 {
+		case 0, 1:
+			// the transaction itself is bigger than the bound
+			tx := &pb.Txn{Success: []*pb.RequestOp{put("a", tag)}}
+			for k := 0; k < 9; k++ {
+				tx.Success = append(tx.Success, put(fmt.Sprintf("big%d", k), bigVal(g, string(tag), (2<<20)-64-g.R.Intn(4096))))
+			}
+			tx.Success = append(tx.Success, put("z", tag))
+			for _, o := range tx.Success {
+				present[string(o.GetRequestPut().Key)] = true
+			}
+			idx++
+			cmds = append(cmds, fmt.Sprintf("%d:TXN{put a=%s; 9 x put big<k> (~2 MiB each); put z=%s}", idx, tag, tag))
+			r.Count("txns", 1)
+			if !apply([]sm.Entry{fsmx.Entry(idx, txnCmd(tx))}, int64(len(present)), nil) {
+				break
+			}
+		case 2:
+			// everything is deleted by one transaction, then plain writes fill the apply call up to
+			// just below the bound and a small transaction crosses it with its first write
+			idx++
+			del := &pb.Txn{Success: []*pb.RequestOp{{Request: &pb.RequestOp_RequestDeleteRange{RequestDeleteRange: &pb.RequestOp_DeleteRange{Key: []byte{0}, RangeEnd: []byte{0}}}}}}
+			cmds = append(cmds, fmt.Sprintf("%d:TXN{delete everything}", idx))
+			if !apply([]sm.Entry{fsmx.Entry(idx, txnCmd(del))}, 0, nil) {
+				break
+			}
+			present = map[string]bool{}
+			var entries []sm.Entry
+			for k := 0; k < 8; k++ {
+				idx++
+				size := (2 << 20) - 64
+				if k == 7 {
+					size -= 96 << 10
+				}
+				entries = append(entries, fsmx.Entry(idx, &pb.Command{Table: []byte("t"), Type: pb.Command_PUT, Kv: &pb.KeyValue{Key: []byte(fmt.Sprintf("big%d", k)), Value: bigVal(g, string(tag), size)}}))
+			}
+			idx++
+			tx := &pb.Txn{Success: []*pb.RequestOp{put("a", padded(tag, 256<<10)), put("m", tag), put("z", padded(tag, 256<<10))}}
+			entries = append(entries, fsmx.Entry(idx, txnCmd(tx)))
+			cmds = append(cmds, fmt.Sprintf("%d..%d: 8 plain puts big<k> (16 MiB - 160 KiB together) then TXN{put a (256 KiB); put m; put z (256 KiB)} in ONE apply call", idx-8, idx))
+			r.Count("txns", 2)
+			// the plain writes of the call may become visible one by one (an apply call is not
+			// atomic), the transaction's three only together: sizes 0..8 and 11 are legal, 9 and 10 never
+			also := map[int64]bool{}
+			for k := int64(0); k <= 8; k++ {
+				also[k] = true
+			}
+			for k := 0; k < 8; k++ {
+				present[fmt.Sprintf("big%d", k)] = true
+			}
+			present["a"], present["m"], present["z"] = true, true, true
+			if !apply(entries, int64(len(present)), also) {
+				break
+			}
+		}
+	}
+	stop.Store(true)
+	wg.Wait()
+	r.Count("big_txn_reader_views_overlapping_apply", overlapOK.Load())
+	if v := bad.Load(); v != nil {
+		r.Violation("partial-transaction-visible", "[apply call above the 16 MiB batch bound] "+v.(string), witness{Case: id, Commands: head(cmds, 40)})
+		return
+	}
+	r.Eval(1)
+	r.Nontrivial(fmt.Sprint("visibility-big", id.Seed))
+	r.Sample(map[string]any{"kind": "visibility-big", "commands": head(cmds, 4)})
+}
+
+func padded(tag []byte, size int) []byte {
+	b := make([]byte, size)
+	copy(b, tag)
+	return b
+}
+
+func bigVal(g *gen.G, tag string, size int) []byte {
+	b := make([]byte, size)
+	for i := 0; i < len(b); i += 4096 {
+		b[i] = byte(g.R.Intn(256))
+	}
+	copy(b, tag)
+	return b
 }
 
 func sameMap(a, b map[string]string) bool {
